@@ -102,6 +102,23 @@ def impl_case(case):
         self_ = MutationChoice((case[1][0], case[1][1]), set(case[1][2]))
         others = set(MutationChoice((a, b), set(vs)) for a, b, vs in case[2])
         return canon(self_.merge_with(others))
+    if k == "applybig":
+        # many draws on a large free space: every draw must change exactly min(n, #choices) choices
+        import numpy as np
+        from dnachisel.MutationSpace import MutationSpace
+        L, nmut, seed, draws = case[1], case[2], case[3], case[4]
+        rng_ = np.random.RandomState(seed)
+        seq = "".join(rng_.choice(list("ACGT"), L))
+        ms = MutationSpace.from_optimization_problem(FakeProblem(seq, []))
+        np.random.seed(seed)
+        worst = None
+        for d in range(draws):
+            out = ms.apply_random_mutations(nmut, seq)
+            changed = sum(1 for x, y in zip(seq, out) if x != y)
+            if changed != min(nmut, L):
+                worst = (d, changed)
+                break
+        return worst
     if k == "extract":
         c = MutationChoice((case[1][0], case[1][1]), set(case[1][2]))
         return tuple(canon(x) for x in c.extract_varying_region())
@@ -123,6 +140,11 @@ def oracle(case, out):
             return "space_size is not the product of the variant counts: %s" % (out[2],)
         return "implementation raised/hung: %r" % (out[:3],)
     o = out[1]
+    if k == "applybig":
+        if o is not None:
+            return "apply_random_mutations(%d) on a free space of %d positions changed %d positions (draw %d, numpy seed %d)" % (
+                case[2], case[1], o[1], o[0], case[3])
+        return None
     if k == "localized":
         full = impl_case(("choices", case[1], "nosizecheck"))[0]
         a, b = case[2], case[3]
@@ -195,6 +217,8 @@ def cdesc(d):
 def coq_case(case, out):
     k = case[0]
     o = out[1]
+    if k == "applybig":
+        return None          # thousands of draws on hundreds of positions: decided by the L3 oracle
     sp = lambda p: cpair(cz(p[0]), cz(p[1]))
     if k == "choices":
         return "KChoices %s %s %s %s %s" % (cdesc(case[1]), clist([cch(t) for t in o[0]]), copt(o[1], sp), cz(o[2]), cz(o[3]))
@@ -300,6 +324,8 @@ def gen_cases(rng, tier):
         cases.append(("choices", ("raw", pos + 1, tuple(cs))))
         a = rng.randint(0, pos // 3)
         cases.append(("localized", ("raw", pos + 1, tuple(cs)), a, rng.randint(a + 1, pos + 1)))
+    for _ in range(6 * N):
+        cases.append(("applybig", rng.choice([250, 400, 700]), rng.choice([2, 2, 3]), rng.randint(0, 10**6), 400))
     for _ in range(150 * N):
         # merge_with: self straddling several contiguous others
         widths = [rng.choice([1, 2, 3]) for _ in range(rng.choice([1, 2, 3]))]
@@ -317,6 +343,8 @@ def gen_cases(rng, tier):
 
 
 def nontrivial(case, out):
+    if case[0] == "applybig":
+        return out[0] == "ok"
     if out[0] != "ok" or out[1] is None:
         return False
     k = case[0]
@@ -326,6 +354,8 @@ def nontrivial(case, out):
         return len(out[1]) > 1
     if k == "apply":
         return len(out[1][1]) > 0
+    if k == "applybig":
+        return True
     if k == "constrain":
         return out[1][0] is not None and out[1][0] != case[2]
     if k == "merge":
